@@ -1,57 +1,629 @@
+// C12 — transactions can only write where their executor is allowed.
+//
+// One program transaction per block (followed by a reader that reports the written keys), for every
+// executor name form (vfx, vfy, user.vfx.n, user.vfy.n on a main chain; user.p.para.vfx, user.p.para.vfy,
+// user.p.para.user.vfx.n, user.p.para.user.vfy.n on a parachain-titled node), every combination of <= 2
+// state-key actions from a catalogue of key classes (own namespace, written-but-unreported, reported-but-
+// unwritten, other executor's namespace, the driver's namespace under a user.* name, friend-approved and
+// friend-refused areas, own / other / driver's deposit area inside coins, plain coins account, malformed
+// keys) and every local-key class (none, correct prefix by driver name and by full name, other executor's
+// prefix, too short, missing separators, wrong common prefix, a state key). Executed by the real executor
+// through EventExecTxList and EventAddBlock on a real node. The oracle is a predicate written from the
+// property text.
 package main
 
 import (
+	"encoding/json"
 	"fmt"
+	"sort"
 	"strings"
 	"time"
 
 	clog "github.com/33cn/chain33/common/log"
+	"github.com/33cn/chain33/common/crypto"
 	"github.com/33cn/chain33/types"
 	"verif/vnode"
 	"verif/vnode/vfx"
 	"verif/vx"
 )
 
-func main() {
-	r := vx.Start("C12", "exploration")
-	clog.SetLogLevel("crit")
-	//r.QuietStderr()
-	n := vnode.New(vnode.Options{NoConsensus: false, CfgEdit: func(s string) string {
-		s = strings.Replace(s, `Title="local"`, `Title="user.p.para."`, 1)
+const (
+	fee      = 100000
+	bits     = 0x1f00ffff
+	paraTitl = "user.p.para."
+)
+
+var (
+	gkey crypto.PrivKey
+	gcfg *types.Chain33Config
+)
+
+// ---------------------------------------------------------------- names
+
+// nameForm describes one executor name under which the program runs.
+type nameForm struct {
+	Form   string // plain, user, para, para-user
+	Name   string // full executor name of the transaction
+	Driver string // vfx or vfy
+	Other  string // the other synthetic executor
+	Own    string // the name the chain itself uses for the executor (parachain title stripped)
+}
+
+func nameForms(para bool) []nameForm {
+	var out []nameForm
+	for _, d := range []string{vfx.NameX, vfx.NameY} {
+		o := vfx.NameY
+		if d == vfx.NameY {
+			o = vfx.NameX
+		}
+		if !para {
+			out = append(out, nameForm{"plain", d, d, o, d})
+			out = append(out, nameForm{"user", "user." + d + ".n", d, o, "user." + d + ".n"})
+		} else {
+			out = append(out, nameForm{"para", paraTitl + d, d, o, d})
+			out = append(out, nameForm{"para-user", paraTitl + "user." + d + ".n", d, o, "user." + d + ".n"})
+		}
+	}
+	return out
+}
+
+// ---------------------------------------------------------------- catalogue of state-key actions
+
+type action struct {
+	Class string
+	Op    string // set (written and reported), omit (written, not reported), emit (reported, not written)
+	Key   string
+}
+
+const someAddr = "1JmFaA6unrCFYEWPGRi7uuXY1KthTJxJEP"
+
+func dep(depositor, rest string) string {
+	return "mavl-coins-bty-exec-" + vfx.ExecAddr(depositor) + ":" + rest
+}
+
+func actions(nf nameForm) []action {
+	a := []action{
+		{"own", "set", "mavl-" + nf.Own + "-k1"},
+		{"own-written-unreported", "omit", "mavl-" + nf.Own + "-k2"},
+		{"own-reported-unwritten", "emit", "mavl-" + nf.Own + "-k3"},
+		{"other-namespace", "set", "mavl-" + nf.Other + "-k"},
+		{"other-namespace-reported-unwritten", "emit", "mavl-" + nf.Other + "-k4"},
+		{"other-namespace-friend-approved", "set", "mavl-" + nf.Other + "-k" + vfx.FriendMark + "1"},
+		{"coins-account", "set", "mavl-coins-bty-" + someAddr},
+		{"own-deposit", "set", dep(nf.Name, someAddr)},
+		{"other-deposit", "set", dep(nf.Other, someAddr)},
+		{"other-deposit-friend-marked", "set", dep(nf.Other, "x"+vfx.FriendMark+someAddr)},
+		{"no-mavl-prefix", "set", "xavl-" + nf.Own + "-k"},
+		{"no-executor-separator", "set", "mavl-" + nf.Own},
+		{"empty-namespace", "set", "mavl--k"},
+		{"longer-namespace", "set", "mavl-" + nf.Own + "x-k"},
+		{"unknown-namespace-friend-marked", "set", "mavl-zzz-k" + vfx.FriendMark + "1"},
+	}
+	if nf.Name != nf.Driver {
+		// under user.* / parachain names the driver's own areas are somebody else's unless the driver allows
+		if nf.Own != nf.Driver {
+			a = append(a, action{"driver-namespace", "set", "mavl-" + nf.Driver + "-k"})
+			a = append(a, action{"driver-namespace-friend-approved", "set", "mavl-" + nf.Driver + "-k" + vfx.FriendMark + "1"})
+		}
+		a = append(a, action{"driver-deposit", "set", dep(nf.Driver, someAddr)})
+		a = append(a, action{"driver-deposit-friend-approved", "set", dep(nf.Driver, "x"+vfx.FriendMark+someAddr)})
+	}
+	return a
+}
+
+// ---------------------------------------------------------------- the rule, written from the property text
+
+// namespaceOf: state keys are "mavl-<executor>-<rest>".
+func namespaceOf(key string) (string, bool) {
+	if !strings.HasPrefix(key, "mavl-") {
+		return "", false
+	}
+	rest := key[len("mavl-"):]
+	i := strings.IndexByte(rest, '-')
+	if i < 0 {
+		return "", false
+	}
+	return rest[:i], true
+}
+
+// depositOf: the deposit area an executor keeps inside another one is "mavl-<host>-<symbol>-exec-<address of the depositor>:<account>".
+func depositOf(key string) (string, bool) {
+	parts := strings.SplitN(key, "-", 5)
+	if len(parts) < 5 || parts[0] != "mavl" || parts[3] != "exec" {
+		return "", false
+	}
+	i := strings.IndexByte(parts[4], ':')
+	if i < 0 {
+		return "", false
+	}
+	return parts[4][:i], true
+}
+
+// driverOfName: the synthetic driver behind an executor name ("" if none).
+func driverOfName(n string) string {
+	n = strings.TrimPrefix(n, paraTitl)
+	if n == vfx.NameX || n == vfx.NameY {
+		return n
+	}
+	for _, d := range []string{vfx.NameX, vfx.NameY} {
+		if strings.HasPrefix(n, "user."+d+".") && strings.Count(n, ".") == 2 {
+			return d
+		}
+	}
+	return ""
+}
+
+// allowedKey: "each reported key lies in its own executor's namespace, in its own deposit area inside
+// another executor, or in an area the owning executor explicitly allows".
+func allowedKey(nf nameForm, key string) bool {
+	ns, ok := namespaceOf(key)
+	if !ok {
+		return false
+	}
+	if ns == nf.Own {
+		return true
+	}
+	d, isDep := depositOf(key)
+	if isDep && d == vfx.ExecAddr(nf.Name) {
+		return true
+	}
+	// explicit permission: the owner is the executor in whose namespace the key lies or, for a deposit area
+	// kept for the transaction's own driver, that driver. Only the synthetic executors ever give permission
+	// (keys carrying vfx.FriendMark); coins gives none to these transactions, unknown executors none at all.
+	owner := driverOfName(ns)
+	if isDep && d == vfx.ExecAddr(nf.Driver) {
+		owner = nf.Driver
+	}
+	return owner != "" && vfx.Friendly([]byte(key))
+}
+
+// stateVerdict: "executes successfully only if every state key it wrote is reported in its receipt and each
+// reported key [is allowed]".
+func stateVerdict(nf nameForm, acts []action) (ok bool, why []string) {
+	ok = true
+	for _, a := range acts {
+		if a.Op == "omit" {
+			ok = false
+			why = append(why, a.Class)
+			continue
+		}
+		if !allowedKey(nf, a.Key) {
+			ok = false
+			why = append(why, a.Class)
+		}
+	}
+	return
+}
+
+// ---------------------------------------------------------------- local-key classes
+
+type localClass struct {
+	Class string
+	Key   string
+	// Want: +1 carries the executor's local prefix, -1 does not, 0 the statement does not say
+	Want int
+}
+
+func localClasses(nf nameForm) []localClass {
+	l := []localClass{
+		{"none", "", 1},
+		{"driver-prefix", "LODB-" + nf.Driver + "-k", 1},
+		{"other-executor-prefix", "LODB-" + nf.Other + "-k", -1},
+		{"prefix-only", "LODB-" + nf.Driver + "-", 0},
+		{"too-short", "LODB-" + nf.Driver[:2], -1},
+		{"no-separator-after-name", "LODB-" + nf.Driver + "xk", -1},
+		{"no-separator-after-LODB", "LODBx" + nf.Driver + "-k", -1},
+		{"longer-name", "LODB-" + nf.Driver + "x-k", -1},
+		{"wrong-common-prefix", "LODA-" + nf.Driver + "-k", -1},
+		{"state-key", "mavl-" + nf.Driver + "-k", -1},
+	}
+	if nf.Name != nf.Driver {
+		l = append(l, localClass{"full-name-prefix", "LODB-" + nf.Name + "-k", 1})
+	}
+	return l
+}
+
+// ---------------------------------------------------------------- world
+
+type world struct {
+	para   bool
+	n      *vnode.Node
+	parent *types.Block
+	acct   string
+}
+
+func newWorld(para bool) (*world, error) {
+	w := &world{para: para}
+	w.n = vnode.New(vnode.Options{CfgEdit: func(s string) string {
+		if para {
+			s = strings.Replace(s, `Title="local"`, `Title="`+paraTitl+`"`, 1)
+		}
 		return s
 	}})
-	fmt.Println("para", n.Cfg.IsPara(), n.Cfg.GetTitle())
-	if !n.WaitHeight(0, 5*time.Second) {
-		fmt.Println("HARNESS-ERROR no genesis")
-		r.Finish()
+	gcfg = w.n.Cfg
+	gkey = vnode.Key(vnode.GenesisKeyHex)
+	if gcfg.IsPara() != para {
+		return nil, fmt.Errorf("configuration: IsPara=%v, want %v", gcfg.IsPara(), para)
 	}
-	g, _ := n.Chain.GetBlock(0)
-	for k, v := range n.StateAt(g.Block.StateHash) {
-		fmt.Printf("state %q = %q\n", k, vx.Norm(v, 40))
+	if !w.n.WaitHeight(0, 10*time.Second) {
+		return nil, fmt.Errorf("no genesis block")
 	}
-	key := vnode.Key(vnode.GenesisKeyHex)
-	cfg := n.Cfg
-	E := "user.p.para.vfx"
+	g, err := w.n.Chain.GetBlock(0)
+	if err != nil {
+		return nil, err
+	}
+	w.parent = g.Block
+	w.acct = "mavl-coins-bty-" + vnode.Addr(gkey)
+	if _, ok := w.n.StateAt(w.parent.StateHash)[w.acct]; !ok {
+		return nil, fmt.Errorf("sender account missing in the genesis state")
+	}
+	return w, nil
+}
+
+func (w *world) close() { w.n.Close(); w.n.Forget() }
+
+func send(n *vnode.Node, topic string, ty int64, data interface{}) (interface{}, error) {
+	msg := n.Client.NewMessage(topic, ty, data)
+	if err := n.Client.Send(msg, true); err != nil {
+		return nil, err
+	}
+	resp, err := n.Client.Wait(msg)
+	if err != nil {
+		return nil, err
+	}
+	if e, ok := resp.GetData().(error); ok {
+		return nil, e
+	}
+	return resp.GetData(), nil
+}
+
+// ---------------------------------------------------------------- one case
+
+type kase struct {
+	Para   bool     `json:"para"`
+	Name   string   `json:"name"`
+	State  []string `json:"state"` // classes
+	Local  string   `json:"local"`
+	Keys   []string `json:"keys,omitempty"`
+	LocalK string   `json:"local_key,omitempty"`
+}
+
+type finding struct{ FP, What string }
+
+var nonce int64
+
+func runCase(r *vx.Run, w *world, nf nameForm, acts []action, lc localClass) (out []finding) {
+	add := func(fp, f string, a ...interface{}) { out = append(out, finding{fp, fmt.Sprintf(f, a...)}) }
+	tag := nf.Driver + "/" + nf.Form
+	var classes []string
+	p := &vfx.Prog{}
+	rd := &vfx.Prog{}
+	for i, a := range acts {
+		classes = append(classes, a.Class)
+		p.Exec = append(p.Exec, vfx.Step{Op: a.Op, K: a.Key, V: fmt.Sprint("v", i)})
+		rd.Exec = append(rd.Exec, vfx.Step{Op: "get", K: a.Key})
+	}
+	sort.Strings(classes)
+	cls := strings.Join(classes, "+")
+	if cls == "" {
+		cls = "no-write"
+	}
+	if lc.Key != "" {
+		p.Local = []vfx.Step{{Op: "setl", K: lc.Key, V: "lv"}}
+	}
+	nonce += 2
+	readerName := nf.Driver
+	if w.para {
+		readerName = paraTitl + nf.Driver
+	}
 	txs := []*types.Transaction{
-		vfx.SignedTx(cfg, E, &vfx.Prog{Exec: []vfx.Step{{Op: "set", K: "mavl-vfx-a", V: "1"}}, Local: []vfx.Step{{Op: "setl", K: "LODB-vfx-a", V: "L1"}}}, 1000000, 1, key),
-		vfx.SignedTx(cfg, E, &vfx.Prog{Exec: []vfx.Step{{Op: "get", K: "mavl-vfx-a"}, {Op: "getl", K: "LODB-vfx-a"}}}, 1000000, 2, key),
+		vfx.SignedTx(gcfg, nf.Name, p, fee, nonce, gkey),
+		vfx.SignedTx(gcfg, readerName, rd, fee, nonce+1, gkey),
 	}
-	b, err := vnode.MakeBlock(n, g.Block, txs, 0x1f00ffff, 0)
-	fmt.Println("makeblock", err)
-	if err == nil {
-		fmt.Println("txs kept", len(b.Txs))
-		err = n.Deliver(vnode.Broadcast, b, "p")
-		fmt.Println("deliver", err, n.Chain.GetBlockHeight())
-		d, _ := n.Chain.GetBlock(1)
-		if d != nil {
-			for i, rc := range d.Receipts {
-				fmt.Println(i, rc.Ty)
-				for _, l := range rc.Logs {
-					fmt.Printf("   log %d %s\n", l.Ty, vx.Norm(string(l.Log), 300))
+	stateOK, why := stateVerdict(nf, acts)
+	sameTime := nf.Driver == vfx.NameX
+	localRuns := stateOK && lc.Key != "" // ExecLocal only runs for a transaction whose state part went through
+	if r != nil {
+		r.Count("evaluations", 1)
+		if !stateOK {
+			r.Count("cases_the_rule_refuses", 1)
+		}
+		if localRuns && lc.Want < 0 {
+			r.Count("cases_with_a_bad_local_key", 1)
+		}
+	}
+	list := &types.ExecTxList{StateHash: w.parent.StateHash, ParentHash: w.parent.Hash(gcfg), Txs: txs,
+		BlockTime: w.parent.BlockTime + 1, Height: w.parent.Height + 1, Difficulty: bits}
+	var data interface{}
+	var err error
+	if pn := vx.Catch(func() { data, err = send(w.n, "execs", types.EventExecTxList, list) }); pn != "" {
+		err = fmt.Errorf("%s", pn)
+	}
+	outcome := ""
+	defer func() {
+		if r != nil {
+			lcl := "-"
+			if localRuns {
+				lcl = lc.Class
+			}
+			r.Seen("distinct", tag+"|refused-for:"+strings.Join(why, "+")+"|"+lcl+"|"+outcome)
+			r.Count("outcome_"+strings.SplitN(outcome, "/", 2)[0], 1)
+		}
+	}()
+	if err != nil {
+		outcome = "list-error"
+		// the whole list may only be refused because of a local key that lacks the prefix
+		if !(localRuns && sameTime && lc.Want <= 0) {
+			add("exec-tx-list-fails:"+vx.Norm(err.Error(), 40)+":"+tag, "EventExecTxList answered %v", err)
+		}
+		return
+	}
+	rc, _ := data.(*types.Receipts)
+	if rc == nil || len(rc.Receipts) != 2 {
+		outcome = "bad-reply"
+		add("receipt-count", "EventExecTxList reply %T", data)
+		return
+	}
+	t, rdr := rc.Receipts[0], rc.Receipts[1]
+	outcome = fmt.Sprint("ty", t.Ty)
+	var foreign []string
+	for _, kv := range t.KV {
+		if string(kv.Key) != w.acct {
+			foreign = append(foreign, string(kv.Key))
+		}
+	}
+	seen := map[string]string{}
+	for _, o := range vfx.ObsOf(rdr.Logs) {
+		if o.Err == "" {
+			seen[o.K] = o.V
+		}
+	}
+	if rdr.Ty != types.ExecOk {
+		add("HARNESS", "the reader did not execute: type %d", rdr.Ty)
+	}
+	switch {
+	case !stateOK:
+		// "otherwise it fails and its writes are discarded"
+		if t.Ty == types.ExecOk {
+			add("forbidden-write-accepted:"+strings.Join(why, "+")+":"+tag, "executor %s, actions %v: the rule refuses %v but the receipt is ExecOk with keys %q", nf.Name, describe(acts), why, foreign)
+		} else {
+			if len(foreign) > 0 {
+				add("refused-transaction-keeps-writes-in-receipt:"+cls+":"+tag, "executor %s, actions %v: receipt type %d still carries keys %q", nf.Name, describe(acts), t.Ty, foreign)
+			}
+			if len(seen) > 0 {
+				add("refused-transaction-writes-visible-to-next-transaction:"+cls+":"+tag, "executor %s, actions %v: receipt type %d but the next transaction reads %v", nf.Name, describe(acts), t.Ty, seen)
+			}
+		}
+	case localRuns && sameTime && lc.Want < 0:
+		// "local-data writes produced for a transaction must carry that executor's local prefix"
+		if t.Ty == types.ExecOk {
+			add("local-key-without-prefix-accepted-at-exec:"+lc.Class+":"+tag, "executor %s: local key %q accepted, receipt ExecOk", nf.Name, lc.Key)
+		}
+	case localRuns && sameTime && lc.Want == 0:
+	default:
+		if t.Ty != types.ExecOk {
+			fp := "allowed-write-refused:" + cls + ":" + tag
+			if localRuns && sameTime {
+				fp = "local-key-with-prefix-refused-at-exec:" + lc.Class + ":" + tag
+			}
+			add(fp, "executor %s, actions %v, local key %q: the rule allows it but the receipt type is %d (%s)", nf.Name, describe(acts), lc.Key, t.Ty, errLogs(t.Logs))
+		} else {
+			for i, a := range acts {
+				if a.Op == "set" && seen[a.Key] != fmt.Sprint("v", i) {
+					add("successful-write-not-visible:"+a.Class+":"+tag, "executor %s: key %q written by a successful transaction reads %q afterwards", nf.Name, a.Key, seen[a.Key])
 				}
 			}
 		}
 	}
-	r.Count("evaluations", 1)
+	// block end: EventAddBlock as the blockchain module sends it
+	if t.Ty == types.ExecErr || rdr.Ty == types.ExecErr {
+		return
+	}
+	var kvset []*types.KeyValue
+	var rdata []*types.ReceiptData
+	for _, x := range rc.Receipts {
+		kvset = append(kvset, x.KV...)
+		rdata = append(rdata, &types.ReceiptData{Ty: x.Ty, Logs: x.Logs})
+	}
+	blk := &types.Block{Height: w.parent.Height + 1, ParentHash: w.parent.Hash(gcfg), BlockTime: w.parent.BlockTime + 1, Txs: txs, StateHash: w.parent.StateHash, Difficulty: bits}
+	detail := &types.BlockDetail{Block: blk, Receipts: rdata, KV: kvset, PrevStatusHash: w.parent.StateHash}
+	if pn := vx.Catch(func() { data, err = send(w.n, "execs", types.EventAddBlock, detail) }); pn != "" {
+		err = fmt.Errorf("%s", pn)
+	}
+	produced := t.Ty == types.ExecOk && lc.Key != ""
+	if err != nil {
+		outcome += "/addblock-error"
+		if !(produced && lc.Want <= 0) {
+			add("add-block-fails:"+vx.Norm(err.Error(), 40)+":"+tag, "EventAddBlock answered %v (local class %s, receipt type %d)", err, lc.Class, t.Ty)
+		}
+		return
+	}
+	ls, _ := data.(*types.LocalDBSet)
+	has := false
+	for _, kv := range ls.GetKV() {
+		if lc.Key != "" && string(kv.Key) == lc.Key {
+			has = true
+		}
+	}
+	outcome += fmt.Sprint("/addblock-has-key=", has)
+	if has && (lc.Want < 0 || t.Ty != types.ExecOk) {
+		add("local-key-without-prefix-handed-to-the-chain:"+lc.Class+":"+tag, "executor %s: EventAddBlock returns local key %q (receipt type %d)", nf.Name, lc.Key, t.Ty)
+	}
+	if !has && produced && lc.Want > 0 {
+		add("local-key-with-prefix-dropped-at-block-end:"+lc.Class+":"+tag, "executor %s: EventAddBlock does not return local key %q", nf.Name, lc.Key)
+	}
+	return
+}
+
+func describe(acts []action) []string {
+	var out []string
+	for _, a := range acts {
+		out = append(out, a.Op+" "+a.Key)
+	}
+	return out
+}
+
+func errLogs(logs []*types.ReceiptLog) string {
+	var out []string
+	for _, l := range logs {
+		if l.Ty == types.TyLogErr {
+			out = append(out, string(l.Log))
+		}
+	}
+	return strings.Join(out, "; ")
+}
+
+// ---------------------------------------------------------------- driver
+
+func combos(n, max int) [][]int {
+	out := [][]int{{}}
+	var rec func(start int, cur []int)
+	rec = func(start int, cur []int) {
+		if len(cur) > 0 {
+			out = append(out, append([]int{}, cur...))
+		}
+		if len(cur) == max {
+			return
+		}
+		for i := start; i < n; i++ {
+			rec(i+1, append(cur, i))
+		}
+	}
+	rec(0, nil)
+	sort.SliceStable(out, func(i, j int) bool { return len(out[i]) < len(out[j]) })
+	return out
+}
+
+func pick(acts []action, idx []int) []action {
+	var out []action
+	for _, i := range idx {
+		out = append(out, acts[i])
+	}
+	return out
+}
+
+func find(para bool, k kase) (nameForm, []action, localClass, bool) {
+	for _, nf := range nameForms(para) {
+		if nf.Name != k.Name {
+			continue
+		}
+		var acts []action
+		for _, c := range k.State {
+			for _, a := range actions(nf) {
+				if a.Class == c {
+					acts = append(acts, a)
+				}
+			}
+		}
+		for _, lc := range localClasses(nf) {
+			if lc.Class == k.Local {
+				return nf, acts, lc, len(acts) == len(k.State)
+			}
+		}
+	}
+	return nameForm{}, nil, localClass{}, false
+}
+
+func main() {
+	r := vx.Start("C12", "exploration")
+	clog.SetLogLevel("crit")
+	r.QuietStderr()
+	r.Rule = "executor name form {vfx, vfy, user.vfx.n, user.vfy.n on a main-chain node; user.p.para.vfx, user.p.para.vfy, user.p.para.user.vfx.n, user.p.para.user.vfy.n on a node titled user.p.para.} x every combination of <= 2 (quick) / <= 3 (thorough) state-key actions from the catalogue (own namespace; own key written but unreported; own key reported but unwritten; other executor's namespace written / only reported / friend-approved; plain coins account; own, other, friend-marked other deposit area in coins; key without mavl- prefix, without executor separator, with empty namespace, with a longer namespace, unknown namespace with friend mark; under user.* and parachain names also the driver's namespace and deposit area, with and without the driver's approval) x every local-key class (none, driver-name prefix, full-name prefix, other executor's prefix, prefix only, too short, missing separator after the name / after LODB, longer name, wrong common prefix, a state key); one program transaction + one reader per block through EventExecTxList, then EventAddBlock. distinct = (name form, action classes, local class, receipt type / reply kind)"
+	r.Assume = []string{
+		"'own executor' under a parachain title is the name with the title stripped; under user.<driver>.<x> it is the full user name (the driver's own areas then need the driver's permission)",
+		"the owner of a deposit area kept for the transaction's driver is that driver; otherwise the owner of a key is the executor of its namespace; coins and unknown executors grant nothing to these transactions",
+		"a local key equal to the bare prefix is neither required nor forbidden; vfy's local keys are judged at EventAddBlock (it does not run ExecLocal during execution)",
+		"a rule-conforming transaction is expected to succeed (nothing else can fail in the synthetic executors); such disagreements carry their own fingerprints (allowed-write-refused:…)",
+	}
+	if c, ok := r.Replaying(); ok {
+		var k kase
+		if err := json.Unmarshal(c, &k); err != nil {
+			fmt.Println("REPLAY-ERROR", err)
+			r.Finish()
+		}
+		w, err := newWorld(k.Para)
+		if err != nil {
+			fmt.Println("HARNESS-ERROR", err)
+			r.Finish()
+		}
+		nf, acts, lc, ok := find(k.Para, k)
+		if !ok {
+			fmt.Println("REPLAY-ERROR unknown case")
+			r.Finish()
+		}
+		for _, f := range runCase(r, w, nf, acts, lc) {
+			fmt.Printf("replay: %s: %s\n", f.FP, f.What)
+			r.Violate(f.FP, f.What, k, nil)
+		}
+		w.close()
+		r.Finish()
+	}
+	maxActs := r.Pick(2, 3)
+	nshard := 8
+	if r.Fork(nshard) {
+		r.Floors["evaluations"] = 5000
+		r.Floors["distinct"] = 300
+		r.Floors["cases_the_rule_refuses"] = 2000
+		r.Floors["cases_with_a_bad_local_key"] = 100
+		r.Finish()
+	}
+	shard, n := r.Shard()
+	para := n > 1 && shard%2 == 1
+	sub, nsub := shard/2, (n+1)/2
+	worlds := []bool{para}
+	if n <= 1 {
+		worlds = []bool{false} // unsharded runs cover the main-chain names only (driver registration is per process)
+		sub, nsub = 0, 1
+	}
+	for _, p := range worlds {
+		w, err := newWorld(p)
+		if err != nil {
+			fmt.Println("HARNESS-ERROR", err)
+			r.Note("HARNESS-ERROR %v", err)
+			r.Cap("harness error: " + err.Error())
+			r.Finish()
+		}
+		i := 0
+		for _, nf := range nameForms(p) {
+			acts := actions(nf)
+			for _, idx := range combos(len(acts), maxActs) {
+				for _, lc := range localClasses(nf) {
+					i++
+					if i%nsub != sub {
+						continue
+					}
+					if r.Expired("case enumeration") {
+						break
+					}
+					as := pick(acts, idx)
+					k := kase{Para: p, Name: nf.Name, Local: lc.Class, LocalK: lc.Key}
+					for _, a := range as {
+						k.State = append(k.State, a.Class)
+						k.Keys = append(k.Keys, a.Op+" "+a.Key)
+					}
+					for _, f := range runCase(r, w, nf, as, lc) {
+						f := f
+						if f.FP == "HARNESS" {
+							r.Note("HARNESS-ERROR %s: %s", vx.J(k), f.What)
+							r.Cap("harness error")
+							continue
+						}
+						r.Violate(f.FP, f.What, k, func() string {
+							for _, g := range runCase(nil, w, nf, as, lc) {
+								if g.FP == f.FP {
+									return g.What
+								}
+							}
+							return ""
+						})
+					}
+					if len(idx) == 2 && i%997 == 0 {
+						r.SampleN(6, k)
+					}
+				}
+			}
+		}
+		w.close()
+	}
 	r.Finish()
 }
